@@ -39,6 +39,14 @@ func executeFlush(db *DB, flushAction memStoreFlushAction) error {
 	// we can skip if there is nothing to write, usually that indicates a proper "close" was done.
 	if memStoreToFlush.Size() == 0 {
 		log.Printf("no memstore flush necessary due to empty store, skipping\n")
+		// the rotated WAL holds nothing that was acknowledged, but it may hold records of writes that failed after
+		// they were appended; left behind it would be replayed over newer data by the next recovery
+		if walPath != "" {
+			err := os.Remove(walPath)
+			if err != nil && !os.IsNotExist(err) {
+				return err
+			}
+		}
 		return nil
 	}
 
